@@ -213,6 +213,34 @@ def run(tier):
                 chk.violation("fidelity:narrow:mem2:newton", "MEM2 / Newton does not reproduce the input moments of a narrow resolved lobe (four-moment norm %.4f > 0.01)" % err,
                               {"N": N, "moments": mix[i].tolist(), "reconstructed": moments_of(Dn[i], d).tolist()})
                 break
+    # slowly varying sequences in one call (a sea veering by 0.025 degrees per member, a lobe widening slowly): every member is an
+    # ordinary mixture of the quantifier and must be reconstructed like any other - whatever its neighbour in the batch is
+    th_ = np.linspace(0, 2 * np.pi, 7200, endpoint=False)
+    for N in ([36] if quick else [24, 36, 72]):
+        d = np.linspace(0, 360, N, endpoint=False)
+        for kind in ("veering", "widening"):
+            nseq = 60 if quick else 160
+            m0_, spread0 = rng.uniform(0, 2 * math.pi), (2 * math.pi / N) * rng.uniform(2.5, 4.0)
+            seq = []
+            for i in range(nseq):
+                mean_ = m0_ + (math.radians(0.025) * i if kind == "veering" else 0.0)
+                spr_ = spread0 * (1.0 + (0.001 * i if kind == "widening" else 0.0))
+                lobe = np.exp((np.cos(th_ - mean_) - 1.0) / spr_ ** 2)
+                D = 0.95 * lobe / np.sum(lobe) + 0.05 / len(th_)
+                seq.append([float(np.sum(D * np.cos(th_))), float(np.sum(D * np.sin(th_))), float(np.sum(D * np.cos(2 * th_))), float(np.sum(D * np.sin(2 * th_)))])
+            seq = np.array(seq)
+            try:
+                Ds = est(seq[:, 0].copy(), seq[:, 1].copy(), seq[:, 2].copy(), seq[:, 3].copy(), d, method="mem2", solution_method="newton")
+            except Exception as e:
+                chk.violation("raise:sequence:%s" % type(e).__name__, "MEM2 / Newton raised on a slowly varying sequence", {"N": N, "kind": kind, "error": str(e)[:300]})
+                continue
+            evals += nseq
+            for i in range(nseq):
+                err = float(np.linalg.norm(moments_of(Ds[i], d) - seq[i]))
+                if not err <= 0.0101:
+                    chk.violation("fidelity:sequence:%s" % kind, "MEM2 / Newton does not reproduce the input moments of member %d of a slowly %s sequence (four-moment norm %.4f > 0.01)" % (i, kind, err),
+                                  {"N": N, "member": i, "moments": seq[i].tolist(), "reconstructed": moments_of(Ds[i], d).tolist()})
+                    break
     # a per-call solver configuration must not outlive the call: default -> loose override -> default again -----------------------------
     for N in Ns[:2]:
         d = np.linspace(0, 360, N, endpoint=False)
